@@ -46,11 +46,12 @@ def wrapper_obligations():
             return 0
 
     obls = []; npaths = 0
-    npt, nv = 3, 3
-    P = [[sym('p%d_%d' % (i, k)) for k in range(2)] for i in range(npt)]; V = [[sym('v%d_%d' % (i, k)) for k in range(2)] for i in range(nv)]
-    names = ['p%d_%d' % (i, k) for i in range(npt) for k in range(2)] + ['v%d_%d' % (i, k) for i in range(nv) for k in range(2)]
+    npt = 3
     eq = lambda a, b: z3.And(z3.Not(SymReal.lift(a).nan), SymReal.lift(a).val == SymReal.lift(b).val)
-    for given in (None, 'zeros', 'stale'):
+    # triangles, quadrilaterals and pentagons (vertex lists of different lengths may be treated differently by the glue)
+    for nv, given in [(3, None), (3, 'zeros'), (3, 'stale'), (4, None), (4, 'stale'), (5, None)]:
+        P = [[sym('p%d_%d' % (i, k)) for k in range(2)] for i in range(npt)]; V = [[sym('v%d_%d' % (i, k)) for k in range(2)] for i in range(nv)]
+        names = ['p%d_%d' % (i, k) for i in range(npt) for k in range(2)] + ['v%d_%d' % (i, k) for i in range(nv) for k in range(2)]
         kern = Kernel()
         buf = None if given is None else (np.zeros(npt, dtype=np.int32) if given == 'zeros' else np.ones(npt, dtype=np.int32))
 
@@ -75,14 +76,15 @@ def wrapper_obligations():
         for kp, pa in enumerate(paths):
             out, calls = pa.result
             hyp = list(pa.pc) + list(pa.axioms)
-            tag = 'gutils.py/points_inside_polygon/inside=%s/path%d' % (given, kp)
+            tag = 'gutils.py/points_inside_polygon/vertices=%d/inside=%s/path%d' % (nv, given, kp)
             if len(calls) != 1:
                 obls.append(pproof.PObligation(tag + '/one-kernel-call', 'post', 'the kernel is entered exactly once', hyp, z3.BoolVal(False), names)); continue
             c = calls[0]
             obls.append(pproof.PObligation(tag + '/zeroed-result-vector', 'post', 'the kernel receives an int32 result vector of one entry per point that is zero on entry (caller vector: %s)' % given, hyp,
                                            z3.BoolVal(c['inside0'] == [0] * npt and c['dtype'] == np.int32 and (buf is None or c['same_buffer'] is buf)), names))
-            obls.append(pproof.PObligation(tag + '/data', 'post', 'the kernel receives the points and the vertices unchanged and the default tolerance 1e-8', hyp,
-                                           z3.And(z3.BoolVal(c['points'].shape == (npt, 2) and c['polygon'].shape == (nv, 2) and float(c['atol']) == 1e-8),
-                                                  *([eq(c['points'][i, k], P[i][k]) for i in range(npt) for k in range(2)] + [eq(c['polygon'][i, k], V[i][k]) for i in range(nv) for k in range(2)])), names))
+            shapes_ok = c['points'].shape == (npt, 2) and c['polygon'].shape == (nv, 2)
+            same = ([eq(c['points'][i, k], P[i][k]) for i in range(npt) for k in range(2)] + [eq(c['polygon'][i, k], V[i][k]) for i in range(nv) for k in range(2)]) if shapes_ok else []
+            obls.append(pproof.PObligation(tag + '/data', 'post', 'the kernel receives the points and the vertices unchanged (all %d of them) and the default tolerance 1e-8' % nv, hyp,
+                                           z3.And(z3.BoolVal(shapes_ok and float(c['atol']) == 1e-8), *same), names))
             obls.append(pproof.PObligation(tag + '/returns-kernel-flags', 'post', 'the flags written by the kernel are returned', hyp, z3.BoolVal([int(v) for v in out] == [1, 0, 1]), names))
     return obls, npaths
